@@ -241,7 +241,12 @@ func errorText(obj *object, name, undefinedDefault string) string {
 	return undefinedDefault
 }
 
-func catchPanic(function func()) (err error) {
+func catchPanic(function func()) error {
+	return catchPanicNested(function, 0)
+}
+
+// catchPanicNested is catchPanic at the given depth of conversions of thrown values to text.
+func catchPanicNested(function func(), depth int) (err error) {
 	defer func() {
 		if caught := recover(); caught != nil {
 			if interrupt, ok := caught.(interruptPanic); ok {
@@ -268,8 +273,13 @@ func catchPanic(function func()) (err error) {
 						return
 					}
 				}
-				// Converting the thrown value to text may run script code (toString), which may throw
-				if nested := catchPanic(func() { err = errors.New(caught.string()) }); nested != nil {
+				// Converting the thrown value to text may run script code (toString), which may throw -
+				// possibly the same value again: only a bounded number of such exceptions is converted.
+				if depth >= 3 {
+					err = errors.New("uncaught exception (its conversion to a string keeps throwing)")
+					return
+				}
+				if nested := catchPanicNested(func() { err = errors.New(caught.string()) }, depth+1); nested != nil {
 					err = nested
 				}
 				return
